@@ -26,4 +26,22 @@ func zzH19e() {
 	} else {
 		zzAssert(len(set["eth0"]) == 1, "unknown-state-skipped")
 	}
+	// a batch that interleaves two interfaces: every change is kept, per
+	// interface, in the order it occurred
+	i1 := &rtnetlink.LinkMessage{Attributes: &rtnetlink.LinkAttributes{Name: "eth0", OperationalState: rtnetlink.OperStateDown}}
+	i2 := &rtnetlink.LinkMessage{Attributes: &rtnetlink.LinkAttributes{Name: "eth1", OperationalState: rtnetlink.OperStateUp}}
+	i3 := &rtnetlink.LinkMessage{Attributes: &rtnetlink.LinkAttributes{Name: "eth0", OperationalState: s}}
+	i4 := &rtnetlink.LinkMessage{Attributes: &rtnetlink.LinkAttributes{Name: "eth1", OperationalState: rtnetlink.OperStateDormant}}
+	mix := process([]rtnetlink.Message{i1, i2, i3, i4})
+	n0 := 1
+	if ok {
+		n0 = 2
+	}
+	zzAssert(len(mix) == 2 && len(mix["eth0"]) == n0 && len(mix["eth1"]) == 2, "interleaved-batch-keeps-every-change")
+	if len(mix["eth0"]) == n0 && len(mix["eth1"]) == 2 {
+		zzAssert(mix["eth0"][0] == LinkDown && mix["eth1"][0] == LinkUp && mix["eth1"][1] == LinkDormant, "interleaved-batch-in-order-per-interface")
+		if ok {
+			zzAssert(mix["eth0"][1] == c, "interleaved-batch-in-order-per-interface")
+		}
+	}
 }
